@@ -48,6 +48,8 @@ theorem loadFull_nf {β : Type} (inv : Arr → Arr) (rate : Rat) (tden ncd : Nat
     · next hfind =>
       split at h
       · cases h
+      split at h
+      · cases h
       · next attrs hattrs =>
         injection h with h
         injection h with h1 h2
@@ -647,5 +649,29 @@ theorem loadFull_times_sorted (h : loadFull inv rate tden ncd one raw d = .ok (f
 end
 
 end Full
+
+theorem loadFull_uncurated_without_templates {β : Type} (inv : Arr → Arr) (rate : Rat) (tden ncd : Nat) (one : Cell)
+    (raw : Option (List (List (List β)))) (d : Dir) (fv : FullView β) (d' : Dir)
+    (h : loadFull inv rate tden ncd one raw d = .ok (fv, d')) (ht : fv.base.templates = none) :
+    fv.base.spikeClusters.data = fv.base.spikeTemplates.data := by
+  unfold loadFull at h
+  simp only [bind, Except.bind, pure, Except.pure, throw, throwThe, MonadExceptOf.throw] at h
+  cases hl : load inv d with
+  | error e => simp [hl] at h
+  | ok r =>
+    obtain ⟨v, dd⟩ := r
+    simp only [hl] at h
+    split at h
+    · cases h
+    · split at h
+      · cases h
+      · next hcur =>
+        split at h
+        · cases h
+        · injection h with h
+          injection h with h1 h2
+          subst h1
+          simp only at ht
+          simpa [ht] using hcur
 
 end PhyVerif.C04.Lemmas
